@@ -292,6 +292,16 @@ func c02Overlap(doc any, rng *rand.Rand) any {
 				}
 			}
 			if isCmd && rng.Intn(4) == 0 {
+				// a command whose tail comes from a variable that expands to nothing: after interpolation the command
+				// ENDS IN A SPACE, and that is what gets signed and written out
+				for pi, p := range m {
+					if cstr, ok := p[1].(string); ok && p[0] == "command" && cstr != "" {
+						m[pi] = [2]any{"command", cstr + " ${C02_NOT_SET}"}
+						steps[si] = m
+					}
+				}
+			}
+			if isCmd && rng.Intn(4) == 0 {
 				// a command step whose command is EMPTY and that has no plugins: only the (empty) `command` key says what it is
 				hasPlugins, cmdAt := false, -1
 				for pi, p := range m {
